@@ -116,6 +116,23 @@ def _gen_derive(rng: random.Random, m: _Model, *, domain: tuple[str, int], poly:
     m.nd += 1
     if spec["via"] == "module":
         spec["abort_inner"] = allow_fault and rng.random() < 0.6
+    if opr in ("integrate", "conjugate") and spec["via"] != "pipeline" and rng.random() < 0.25:
+        # compose with an inner operator whose result is never compiled on its own
+        src = spec["src"][0]
+        inner = rng.choice(["multiply", "multiply", "conjugate", "concatenate"])
+        if inner == "multiply" and m.mdepth[src] == 0 and m.scope[src] == m.full_scope[src]:
+            same = [n for n in m.names if m.scope[n] == m.scope[src] and m.mdepth[n] == 0
+                    and m.depth[n] < 3]
+            other = rng.choice(same) if same and rng.random() < 0.6 else src
+            spec["src"] = [src, other]
+            spec["pre"] = "multiply"
+            m.bases[name] = tuple(dict.fromkeys(m.bases[src] + m.bases[other]))
+            m.mdepth[name] = 1
+        elif inner == "conjugate":
+            spec["pre"] = "conjugate"
+        elif inner == "concatenate":
+            spec["src"] = [src, src]
+            spec["pre"] = "concatenate"
     op: dict[str, Any] = {"op": "derive", "name": name, "spec": spec, "seed": _seed(rng)}
     if allow_fault and spec["via"] == "symbolic" and rng.random() < 0.35:
         op["fault"] = {"at": rng.randrange(0, 60), "when": rng.choice(["before", "before", "after"])}
